@@ -363,8 +363,8 @@ def intern_churn_program(rng):
     n = rng.choice([300, 600, 900])
     step = rng.choice([2, 3, 5])
     pre = rng.choice(["k", "key-", "", "id"])
-    fns = [("churn", ("fn churn(n: int) -> int {\n    let mut keep: array<string> = [\"first\"]\n    let mut i: int = 0\n    while (< i n) {\n        let s: string = (+ \"%s\" (int_to_string i))\n"
-                      "        if (== (%% i %d) 0) {\n            set keep (array_push keep s)\n        }\n        set i (+ i 1)\n    }\n    let mut eq: int = 0\n    let mut j: int = 0\n"
+    fns = [("churn", ("fn churn(n: int) -> int {\n    let mut keep: array<string> = [\"first\"]\n    let mut recent: array<string> = [\"r0\", \"r1\", \"r2\", \"r3\", \"r4\", \"r5\", \"r6\", \"r7\", \"r8\", \"r9\", \"r10\", \"r11\", \"r12\", \"r13\", \"r14\", \"r15\", \"r16\", \"r17\", \"r18\", \"r19\", \"r20\", \"r21\", \"r22\", \"r23\", \"r24\", \"r25\", \"r26\", \"r27\", \"r28\", \"r29\", \"r30\", \"r31\", \"r32\", \"r33\", \"r34\", \"r35\", \"r36\", \"r37\", \"r38\", \"r39\"]\n    let mut i: int = 0\n    while (< i n) {\n        let s: string = (+ \"%s\" (int_to_string i))\n"
+                      "        (array_set recent (%% i 40) s)\n        if (== (%% i %d) 0) {\n            set keep (array_push keep s)\n        }\n        set i (+ i 1)\n    }\n    let mut eq: int = 0\n    let mut j: int = 0\n"
                       "    while (< j (- (array_length keep) 1)) {\n        let t: string = (+ \"%s\" (int_to_string (* j %d)))\n        if (== t (at keep (+ j 1))) {\n            set eq (+ eq 1)\n        }\n"
                       "        if (str_equals t (at keep (+ j 1))) {\n            set eq (+ eq 1000)\n        }\n        if (!= t (at keep (+ j 1))) {\n            (println t)\n        }\n        set j (+ j 1)\n    }\n    return eq\n}\n") % (pre, step, pre, step))]
     return shadowed(fns, [("churn", "(churn %d)" % n), ("churn", "(churn 40)")])
